@@ -1351,6 +1351,7 @@ done:
   else buf_printf(&out, "\"exit\":{\"signal\":%d}", term_sig);
   buf_printf(&out, ",\"steps\":%ld,\"events\":%ld,\"log_hash\":\"%016llx\"", steps, seq, (unsigned long long)log_hash);
   buf_printf(&out, ",\"max_alloc\":%ld,\"unexpected\":%ld,\"wall_ms\":%.3f", max_alloc, unexpected, wall);
+  buf_printf(&out, ",\"clock_reads\":%llu,\"random_bytes\":%llu", (unsigned long long)clk_calls, (unsigned long long)rnd_calls);
   buf_printf(&out, ",\"accepted\":{");
   for (int i = 0; i < nacc; ++i)
     {
